@@ -17,6 +17,8 @@ pub const SWEEP_BASE: u64 = 1 << 40;
 /// many expansions in one process (a 16-bit counter, a bounded cache that starts evicting) is
 /// reached and every input is re-delivered across that distance.
 pub const MARATHON_BASE: u64 = 1 << 39;
+/// Session indices in [FLOOD_BASE, MARATHON_BASE) are name-flood sessions (see `plan_flood`).
+pub const FLOOD_BASE: u64 = 1 << 38;
 
 pub const KINDS: &[&str] = &[
     "rekey",
@@ -31,6 +33,7 @@ pub const KINDS: &[&str] = &[
     "error-interleave",
     "mode-flip",
     "restart",
+    "name-flood",
 ];
 
 #[derive(Clone, Debug, Serialize, Deserialize)]
@@ -178,9 +181,95 @@ fn plan_sweep(p: &SessionParams, pool: &Pool) -> (Plan, SessionMeta) {
     (plan, meta)
 }
 
+/// Name-flood session: ~1 300 fresh identifiers (type, const and lifetime parameters, field,
+/// variant and type names) are declared by ~640 small items, and a fixed set of victims is
+/// expanded before and / or after the flood: items whose own parameter and whose free type name
+/// are flood names a power of two apart (what a bit set, a small-vector threshold or a wrapped
+/// index would confuse), plus a sample of ordinary pool items. Even sessions deliver flood ->
+/// victims (table positions aligned with the names), odd sessions victims -> flood -> victims
+/// -> victims on a worker; both share the victims, so D1 compares within a session and D2
+/// across the two processes.
+fn plan_flood(p: &SessionParams, pool: &Pool) -> (Plan, SessionMeta) {
+    let k = p.idx - FLOOD_BASE;
+    let seed = derive_seed(p.root, LABEL_SESSION, p.idx);
+    let pair_seed = derive_seed(p.root, LABEL_SESSION, FLOOD_BASE + k / 2);
+    let mut client = Rng::new(derive_seed(pair_seed, 1, 0));
+    let mut keys = Rng::new(derive_seed(seed, 3, 0));
+    let mk = |mode: Mode, attr: &str, item: String| -> Option<Request> {
+        let a = crate::req::lex(attr)?;
+        let i = crate::req::lex(&item)?;
+        let r = Request::new(mode, &a, &i);
+        crate::gen::is_valid_request(&r).then_some(r)
+    };
+    const K: usize = 320;
+    let mut flood: Vec<Request> = Vec::new();
+    for f in 0..K {
+        let (a, b, c, d) = (4 * f, 4 * f + 1, 4 * f + 2, 4 * f + 3);
+        flood.extend(mk(Mode::Attr, "Clone, PartialEq", format!("struct F{f}<G{a}, G{b}, G{c}, G{d}>(G{a}, Vec<G{b}>, [G{c}; 1], Option<G{d}>);")));
+        flood.extend(mk(Mode::Derive, "", format!("#[derive_ex(Debug, Hash)] enum E{f}<'l{f}, const C{f}: usize> {{ V{f} {{ fld{f}: &'l{f} [u8; C{f}] }}, W{f} }}")));
+    }
+    let mut victims: Vec<Request> = Vec::new();
+    for base in [0usize, 1, 2, 3, 5, 31, 63, 64, 65, 127, 255] {
+        for d in [1usize, 2, 4, 8, 16, 32, 64, 128, 256, 512, 1024] {
+            let (o, fr) = (base, base + d);
+            victims.extend(mk(Mode::Attr, "Clone, Debug, PartialEq, Add", format!("struct V<G{o}>(G{o}, G{fr});")));
+            victims.extend(mk(Mode::Derive, "", format!("#[derive_ex(Clone, Default, Hash)] enum V<G{o}> {{ A(G{fr}), #[default] B {{ x: G{o} }} }}")));
+            victims.extend(mk(Mode::Attr, "Clone, PartialOrd, PartialEq", format!("struct W<const C{o}: usize>([u8; C{o}], [u8; C{fr}]);")));
+            victims.extend(mk(Mode::Attr, "Clone", format!("struct L<'l{o}, T>(&'l{o} T, &'l{fr} T);")));
+        }
+    }
+    for _ in 0..200 {
+        if let Some(r) = pool.any_request(&mut client) {
+            victims.push(r.clone());
+        }
+    }
+    let mut b = Builder { plan: Plan::default(), index: BTreeMap::new() };
+    let mut fired: BTreeMap<String, usize> = BTreeMap::new();
+    let mut first = true;
+    let mut deliver = |b: &mut Builder, rs: &[Request], thread: &str, kinds: &[&str]| {
+        for r in rs {
+            let ri = b.req_idx(r);
+            let policy = if first {
+                first = false;
+                Policy::Keyed { k0: keys.next_u64(), k1: keys.next_u64() }
+            } else {
+                Policy::Keep
+            };
+            for kd in kinds {
+                *fired.entry(kd.to_string()).or_default() += 1;
+            }
+            b.plan.steps.push(Step { req: ri, thread: thread.into(), policy, kinds: kinds.iter().map(|s| s.to_string()).collect() });
+        }
+    };
+    if k % 2 == 0 {
+        deliver(&mut b, &flood, "main", &["name-flood", "main-thread"]);
+        deliver(&mut b, &victims, "main", &["main-thread"]);
+    } else {
+        deliver(&mut b, &victims, "main", &["main-thread"]);
+        deliver(&mut b, &flood, "main", &["name-flood", "main-thread"]);
+        deliver(&mut b, &victims, "main", &["redeliver-later", "main-thread"]);
+        deliver(&mut b, &victims, "w0", &["redeliver-later", "thread-switch"]);
+    }
+    let meta = SessionMeta {
+        seed,
+        enabled: vec!["name-flood".into()],
+        key_policy: "fixed".into(),
+        workers: 1,
+        working_set: b.plan.reqs.len(),
+        corpus_share_pct: 0,
+        length: b.plan.steps.len(),
+        fired,
+        mutation_ops: BTreeMap::new(),
+    };
+    (b.plan, meta)
+}
+
 pub fn plan_session(p: &SessionParams, pool: &Pool) -> (Plan, SessionMeta) {
     if p.idx >= SWEEP_BASE {
         return plan_sweep(p, pool);
+    }
+    if p.idx >= FLOOD_BASE && p.idx < MARATHON_BASE {
+        return plan_flood(p, pool);
     }
     let seed = derive_seed(p.root, LABEL_SESSION, p.idx);
     // Twin sessions: sessions 2k and 2k+1 draw the same working set (client stream) but have
